@@ -1235,6 +1235,9 @@ def c20(ctx):
     for inv in ("ReturnsRequested", "Bounded", "NoDuplicates", "OnlySeenKeys", "MostRecentLast"):
         ctx.model_checks.append("SFKeyCache!%s (LRU refines the cache-less lookup) held on %d states" % (inv, dist))
     log("G SFKeyCache: %d states, %d histories" % (dist, len(rows)))
+    # unbounded in the length of the history: Bounded /\ NoDuplicates is inductive (TLC starts from every state satisfying it)
+    core.tlc_model_check(ctx, "SFKeyCacheInd", dict(NKeys=4 if ctx.quick else 5, MaxCap=4 if ctx.quick else 5),
+                         ["IndInv", "ReturnsRequested", "MostRecentLast"], "SFKeyCacheInd", properties=["EvictsOnlyWhenFull"])
     cases = []
     for n, r in enumerate(rows):
         combos = [("json", "ifc"), ("cborl", "int"), ("ubjson", "struct"), ("json", "struct"), ("cborl", "ifc"), ("ubjson", "int"),
@@ -1259,7 +1262,7 @@ def c20(ctx):
         ctx, "TraceCodec", cases, tf, failed, nv, level_note="", exhaustive=True,
         rule="TLC walks the LRU model SFKeyCache: EVERY access history up to MaxLen over 4 keys (the empty key, two keys of equal length, keys sharing a "
              "prefix) x EVERY capacity 0..MaxCap, split into up to 3 documents, checking on every state that the LRU refines the "
-             "cache-less lookup; each history is replayed on the real unfolder (keys delivered by reference by the JSON/UBJSON/CBOR "
+             "cache-less lookup (and, in SFKeyCacheInd, that Bounded /\\ NoDuplicates is an INDUCTIVE invariant, i.e. holds for histories of any length); each history is replayed on the real unfolder (keys delivered by reference by the JSON/UBJSON/CBOR "
              "parser into map[string]interface{}, map[string]int and map[string]struct targets) with the cache enabled and disabled, the "
              "source bytes being overwritten after every document (every other history: all documents read into one reused input buffer); TraceCodec!KeyCacheVerdict requires identical results and intact keys. "
              "Distinct = distinct (capacity, history, format, target); non-trivial = at least one repeated key.",
